@@ -67,6 +67,13 @@ func describeU(u *Universe) map[string]string {
 func checkC01(c C01Case, r *Rec) *Violation {
 	u := &c.U
 	src := m.Render(c.Tree)
+	if hash64(src)%4 == 0 {
+		// the same program with some integer literals spelled differently (leading zeros, plus sign)
+		if alt := respellInts(src); alt != src {
+			src = alt
+			r.Class("integer-literals-respelled")
+		}
+	}
 	log := &Log{}
 	cc, prefix := NewConfig(u, log, Build{Mask: 0, How: c.How, Variant: c.Var})
 	e, co := SafeCompile(cc, prefix+src)
